@@ -246,6 +246,23 @@ def subTagOffset : Tag R → Option Nat
   | .math _ off _ => some off
   | _ => none
 
+/-- the content range of a sub tag for the test added in bc59b89 (`none`: not allowed there) -/
+def subTagRange : Tag R → Option (Nat × Nat)
+  | .var v => some (v.off - W1.variablePrefixLength, v.off + v.len + W1.inLineSuffixLength)
+  | .raw v => some (v.off - W1.variablePrefixLength, v.off + v.len + W1.inLineSuffixLength)
+  | .math _ off endOff => some (off, endOff)
+  | _ => none
+
+/-- the sub tag sits inside the value of `true` or inside the value of `false` -/
+def insideValues (f : IifFields) (t : Tag R) : Bool :=
+  match subTagRange t with
+  | none => false
+  | some (s, e) =>
+    let tS := f.off + f.trueOff
+    let fS := f.off + f.falseOff
+    decide (s ≤ e) &&
+      ((decide (tS ≤ s) && decide (e ≤ tS + f.trueLen)) || (decide (fS ≤ s) && decide (e ≤ fS + f.falseLen)))
+
 /-- the `while (s_tag < s_tag_end)` loop: `(id, skip)` -/
 def startIdScan (firstOffset : Nat) : List (Tag R) → Nat → Nat × Bool
   | [], id => (id, false)
@@ -270,11 +287,15 @@ def closeIif (c : List Nat) (st : PState R) (pre : List (Tag R)) (cs : List (Ite
   if f.trueOff ≠ 0 ∨ f.falseOff ≠ 0 then
     let firstOffset := (if f.trueOff < f.falseOff then f.falseOff else f.trueOff) + f.off
     let (id, skip) := startIdScan firstOffset sub 0
+    -- bc59b89: when the tag is final, every sub tag has to lie inside the value of `true` or of
+    -- `false` (and be a var / raw / math tag); otherwise the inline-if is dropped
+    let outside := !skip && !sc.repush && !(sub.all (insideValues f))
     if skip then
       -- `storage->Drop(1)`: the current storage loses its last element
       if sc.repush then
         .ok { st with stack := .iif pre cs f :: rest, storage := sub.dropLast, isChild := true }
       else .ok { st with stack := rest, storage := pre, isChild := false }
+    else if outside then .ok { st with stack := rest, storage := pre, isChild := false }
     else
       let f := if f.trueOff < f.falseOff then { f with falseStart := trunc bits_InLineIfTag_FalseTagsStartID id }
                else { f with trueStart := trunc bits_InLineIfTag_TrueTagsStartID id }
